@@ -29,7 +29,7 @@ Import ListNotations.
 Open Scope string_scope.
 """
 
-LONG_TEXT = "a fairly long text, " * 60
+LONG_TEXT = ("a fairly long text, " * 25).strip()
 # edge texts (falsy, keyword-like, long, equal to the refusal); "" is not used as the v1 LLM output
 # (generation.py replaces an empty completion by a fallback sentence: LLM post-processing, C17)
 EDGE_USER = ["", " ", "0", "None", "False", LONG_TEXT, D.REFUSAL]
